@@ -532,6 +532,23 @@ func B(site int) int { Yield(site); return site }
 func W[T any](site int, v T) T { Yield(site); return v }
 
 // Go replaces a `go` statement.
+// PCTBurst re-arms the PCT strategy from task context: d further priority
+// change points, the first one within the next horizon steps. Lets a harness
+// aim change points at a window it is about to open (one burst per race),
+// instead of spending them all at the start of a long run.
+//
+//go:norace
+func PCTBurst(d, horizon int) {
+	s := activeSim()
+	if s == nil || cur() == nil || s.cfg.Strategy != 2 || horizon < 1 {
+		return
+	}
+	s.pctLeft = d
+	s.pctNext = s.steps + 1 + s.draw(StreamSched, horizon)
+	// the caller may have been demoted by an earlier change point: it competes afresh
+	cur().prio = 1000 + s.draw(StreamSched, 1000)
+}
+
 func Go(site int, fn func()) {
 	s := activeSim()
 	if s == nil || cur() == nil {
